@@ -148,6 +148,7 @@ def st_process(spec):
     full = spec.get("full_digests", False)
     n = 0
     n_legacy = 0
+    n_legacy_wrong = 0
     if full:
         name_fp = np.empty(EXPECTED_TOTAL + 1024, dtype=np.uint64)
         hash_fp = np.empty(EXPECTED_TOTAL + 1024, dtype=np.uint64)
@@ -159,6 +160,8 @@ def st_process(spec):
                 hash_fp[n] = hash(x) % (1 << 64)
                 if nm in legacy_imgs:
                     n_legacy += 1
+                if x.is_legacy_equivalent() != (nm in legacy_imgs):
+                    n_legacy_wrong += 1
             n += 1
         m = min(n, name_fp.shape[0])
         un, uh = np.unique(name_fp[:m]).shape[0], np.unique(hash_fp[:m]).shape[0]
@@ -169,7 +172,10 @@ def st_process(spec):
         events.append(["full", int(n), int(np.bitwise_xor.reduce(name_fp[:m])), int(name_fp[:m].sum(dtype=np.uint64)), int(np.bitwise_xor.reduce(hash_fp[:m])), int(hash_fp[:m].sum(dtype=np.uint64)), n_legacy])
         if n_legacy != len(legacy_imgs):
             bad("C15.legacy-images-enumerated-once", f"{n_legacy} enumerated tokenizers carry the name of a legacy image, expected {len(legacy_imgs)}")
+        if n_legacy_wrong:
+            bad("C15.legacy-equivalent", f"{n_legacy_wrong} of the {n} enumerated tokenizers report is_legacy_equivalent() differently from 'is the image of a legacy mode'")
         stats["probe_full_name_hash_digests"] = 1
+        stats["full_space_legacy_equivalence_checked"] = int(n)
     else:
         for _ in all_instances(MazeTokenizerModular, V):
             n += 1
@@ -215,6 +221,34 @@ def st_process(spec):
         if t.is_legacy_equivalent() != (nm in legacy_names):
             bad("C15.legacy-equivalent", f"is_legacy_equivalent()={t.is_legacy_equivalent()} for {nm[:120]}")
     stats["sampled_tokenizers"] = len(sample)
+    # ---- every single-element neighbour of every legacy image (exhaustive at distance 1): "... and no other tokenizer does" ----
+    n_nb = 0
+    nb_true = 0
+    for mode, lt in zip(TokenizationMode, legacy):
+        ps = lt.prompt_sequencer
+        base = dict(coord_tokenizer=ps.coord_tokenizer, adj_list_tokenizer=ps.adj_list_tokenizer, target_tokenizer=ps.target_tokenizer, path_tokenizer=ps.path_tokenizer)
+        cands = []
+        for slot, key in (("coord_tokenizer", "coord"), ("adj_list_tokenizer", "adj_list"), ("target_tokenizer", "target"), ("path_tokenizer", "path")):
+            for e in elems[key]:
+                kw = dict(base)
+                kw[slot] = e
+                cands.append(MazeTokenizerModular(prompt_sequencer=PromptSequencers.AOTP(**kw)))
+        for c in elems["coord"]:
+            cands.append(MazeTokenizerModular(prompt_sequencer=PromptSequencers.AOP(coord_tokenizer=c, adj_list_tokenizer=base["adj_list_tokenizer"], path_tokenizer=base["path_tokenizer"])))
+        for _ in range(200):  # distance-2 neighbours, seeded
+            kw = dict(base)
+            for slot, key in rng.sample([("coord_tokenizer", "coord"), ("adj_list_tokenizer", "adj_list"), ("target_tokenizer", "target"), ("path_tokenizer", "path")], 2):
+                kw[slot] = rng.choice(elems[key])
+            cands.append(MazeTokenizerModular(prompt_sequencer=PromptSequencers.AOTP(**kw)))
+        for t in cands:
+            n_nb += 1
+            le = t.is_legacy_equivalent()
+            nb_true += bool(le)
+            if le != (t.name in legacy_names):
+                bad("C15.legacy-equivalent", f"is_legacy_equivalent()={le} for a neighbour of from_legacy({mode.name}): {t.name[:160]}")
+                break
+    events.append(["legacy-neighbours", n_nb, nb_true])
+    stats["legacy_neighbours_checked"] = n_nb
     # ---- archive round trip through the storage seam ---------------------------------------------------------------
     from zanj import ZANJ
 
